@@ -336,6 +336,20 @@ theorem lc_own_fn_once {s : LC.St} (h : LC.Reach s) (r : LRet) (hr : r ∈ s.ret
   have := (LC.inv_reach h).rets r hr
   exact ⟨this.1, this.2.1⟩
 
+/-- … and during a call that is still in progress the caller's own function has run at most once — exactly once as
+soon as it has started (rows `f1` … `px`). -/
+theorem lc_own_fn_at_most_once {s : LC.St} (h : LC.Reach s) (t : Tid) (ht : s.pc t ≠ .idle) :
+    s.runs t ≤ 1 ∧ ((s.pc t).ranOnce = true → s.runs t = 1) := by
+  have hi := LC.inv_reach h
+  have h0 := hi.notrun t
+  have h1 := hi.ranonce t
+  revert ht h0 h1
+  cases s.pc t <;> simp [LC.PC.notRun, LC.PC.ranOnce] <;> omega
+
+/-- inhabited: after 8 steps of its first call goroutine 0 is inside its function, which has run once. -/
+example : (LC.run LC.init (List.replicate 1 (0,3) ++ List.replicate 7 (0,0))).map (fun s => (s.pc 0, s.runs 0))
+    = some (LC.PC.f1, 1) := by decide
+
 /-- a step is disabled only at the mutex or at a wait group -/
 theorem lc_blocked_cases {s : LC.St} {t : Tid} {x : Nat} (hb : LC.step s t x = none) :
     ((s.pc t = .b0 ∨ s.pc t = .e0) ∧ s.lock ≠ none) ∨ (s.pc t = .b3 ∧ s.wg (s.reg t) ≠ 0) := by
@@ -447,7 +461,11 @@ def lcPanicDemo : List (Tid × Nat) :=
 example : (LC.run LC.init lcPanicDemo).map (fun s => (s.rets.map fun r => (r.tid, r.key, r.val, r.runs), s.pc 0))
     = some ([(1, 3, 6, 1)], LC.PC.idle) := by decide
 
-/-! ## ResourceManager (core/syncx/resourcemanager.go) -/
+/-! ## ResourceManager (core/syncx/resourcemanager.go) and the two anchored users of the same pattern
+`RM.Reach` ranges over every `Cfg`: `Cfg.getResource` (ResourceManager.GetResource), `Cfg.cacheTake`
+(collection.Cache.Take: a lookup in front of the flight, no type assertion after it) and `Cfg.doTake`
+(cacheNode.doTake).  Read "create" as `create` / `fetch` / `query` and "the map" as `manager.resources` / `c.data` /
+the redis key.  Every theorem of this section therefore speaks about all three. -/
 
 /-- **Each keyed resource is created successfully at most once**, on every schedule. -/
 theorem rm_create_once {s : RM.St} (h : RM.Reach s) (k : Key) : s.ncreate k ≤ 1 :=
@@ -457,18 +475,54 @@ theorem rm_create_once {s : RM.St} (h : RM.Reach s) (k : Key) : s.ncreate k ≤ 
 instance made by the one successful `create` of its key. -/
 theorem rm_same_instance {s : RM.St} (h : RM.Reach s) (r : RRet) (hr : r ∈ s.rets) (hv : r.val ≠ 0) :
     s.ncreate r.key = 1 ∧ r.val = s.inst r.key := by
-  have hi := RM.inv_reach h
-  obtain ⟨a1, a2, a3⟩ := hi.rets r hr
-  have := hi.r5 r.exec r.val a1 a2 hv
-  rw [a3] at this
+  have := (RM.inv_reach h).retsI r hr hv
   exact ⟨this.1, this.2.symm⟩
+
+/-- **… to everyone**: any two calls on the same key that returned a resource returned the same one — whichever way
+each got it (own flight, shared flight, re-check inside the flight, hit in front of the flight). -/
+theorem rm_everyone_same {s : RM.St} (h : RM.Reach s) (r q : RRet) (hr : r ∈ s.rets) (hq : q ∈ s.rets)
+    (hk : r.key = q.key) (hrv : r.val ≠ 0) (hqv : q.val ≠ 0) : r.val = q.val := by
+  have a := (rm_same_instance h r hr hrv).2
+  have b := (rm_same_instance h q hq hqv).2
+  rw [a, b, hk]
 
 /-- what a `GetResource` call returns is what the single execution of the closure for its flight returned (its
 own, or the one it shared), and that flight was for its key. -/
-theorem rm_result_is_execution {s : RM.St} (h : RM.Reach s) (r : RRet) (hr : r ∈ s.rets) :
+theorem rm_result_is_execution {s : RM.St} (h : RM.Reach s) (r : RRet) (hr : r ∈ s.rets) (hd : r.direct = false) :
     s.fnres r.exec = some r.val ∧ s.ekey r.exec = r.key := by
-  have := (RM.inv_reach h).rets r hr
+  have := (RM.inv_reach h).rets r hr hd
   exact ⟨this.2.1, this.2.2⟩
+
+/-- a call answered by the lookup in front of the flight (`collection.Cache.Take`'s first `doGet`) returns the stored
+instance — never an error, never nil — which is the one successful load's instance. -/
+theorem rm_direct_hit {s : RM.St} (h : RM.Reach s) (r : RRet) (hr : r ∈ s.rets) (hd : r.direct = true) :
+    r.val ≠ 0 ∧ s.ncreate r.key = 1 ∧ r.val = s.inst r.key := by
+  have hv := (RM.inv_reach h).retsD r hr hd
+  have := (RM.inv_reach h).retsI r hr hv
+  exact ⟨hv, this.1, this.2.symm⟩
+
+/-- the lookup in front of the flight exists only for `Cfg.pre` users; no step changes the configuration. -/
+theorem rm_cfg_constant {s s' : RM.St} {t : Tid} {x : Nat} (hs : RM.step s t x = some s') : s'.cfg = s.cfg := by
+  unfold RM.step at hs
+  split at hs <;> (try split at hs) <;> simp at hs <;> subst hs <;> rfl
+
+/-- **cleanup of the users' flight group** (as `sf_cleanup`): an entry of the flight map belongs to a leader that is
+right now inside that flight for that key — whichever way `create`/`fetch`/`query` ended. -/
+theorem rm_cleanup {s : RM.St} (h : RM.Reach s) (k : Key) (c : CallId) (hc : s.calls k = some c) :
+    (s.pc (s.leader c)).inFlight = true ∧ s.reg (s.leader c) = c ∧ s.key (s.leader c) = k := by
+  have hi := RM.inv_reach h
+  obtain ⟨_, a2, a3, a4⟩ := hi.calls k c hc
+  have ho := hi.owns (s.leader c) (by revert a3; cases s.pc (s.leader c) <;> simp [RM.PC.inFlight, RM.PC.owns])
+  rw [a4] at ho
+  exact ⟨a3, a4, by rw [← ho.2.2.1]; exact a2⟩
+
+theorem rm_quiescent_clean {s : RM.St} (h : RM.Reach s) (hq : ∀ t, s.pc t = .idle) (k : Key) : s.calls k = none := by
+  cases hc : s.calls k with
+  | none => rfl
+  | some c =>
+    have := (rm_cleanup h k c hc).1
+    rw [hq] at this
+    simp [RM.PC.inFlight] at this
 
 /-- the stored instance is that one, too. -/
 theorem rm_stored {s : RM.St} (h : RM.Reach s) (k : Key) (v : Val) (hv : s.res k = some v) :
@@ -495,7 +549,7 @@ def rmDemo : List (Tid × Nat) :=
   [(0,2)] ++ List.replicate 11 (0,0) ++ [(0,9)] ++ List.replicate 9 (0,0) ++   -- 0: second call creates 9
   [(2,2)] ++ List.replicate 16 (2,0)              -- 2: finds 9 in the map
 
-example : (RM.run RM.init rmDemo).map (fun s => (s.rets.map fun r => (r.tid, r.key, r.val), s.ncreate 2, s.res 2))
+example : (RM.run (RM.init .getResource) rmDemo).map (fun s => (s.rets.map fun r => (r.tid, r.key, r.val), s.ncreate 2, s.res 2))
     = some ([(2, 2, 9), (0, 2, 9), (1, 2, 0), (0, 2, 0)], 1, some 9) := by decide
 
 /-! ### a panicking `create` (outside the property's quantifier; this is what the code does)
@@ -522,19 +576,142 @@ def rmPanicDemo : List (Tid × Nat) :=
   [(1,0),(1,0)] ++                                -- 1: wakes; val.(io.Closer) panics
   [(2,2)] ++ List.replicate 11 (2,0) ++ [(2,9)] ++ List.replicate 9 (2,0)   -- 2: creates 9
 
-example : (RM.run RM.init rmPanicDemo).map
+example : (RM.run (RM.init .getResource) rmPanicDemo).map
       (fun s => (s.rets.map fun r => (r.tid, r.key, r.val), s.ncreate 2, s.res 2, s.pc 0, s.pc 1))
     = some ([(2, 2, 9)], 1, some 9, RM.PC.idle, RM.PC.idle) := by decide
+
+/-! ### collection.Cache.Take as an instance (`Cfg.cacheTake`)
+goroutine 0 misses in front of the flight, leads, `fetch` returns 9, `c.Set`; goroutine 1 missed in front of the
+flight too (before the store), enters after 0's flight is gone, leads its own flight and finds 9 in the re-check
+inside the barrier (no second fetch: `ncreate = 1`); goroutine 2 then hits in front of the flight (direct). -/
+def takeDemo : List (Tid × Nat) :=
+  [(0,2)] ++ List.replicate 4 (0,0) ++            -- 0: invoke, p0..p3 (miss) → l0
+  [(1,2)] ++ List.replicate 4 (1,0) ++            -- 1: invoke, p0..p3 (miss) → l0
+  List.replicate 11 (0,0) ++ [(0,9)] ++ List.replicate 9 (0,0) ++   -- 0: flight, fetch → 9, Set, delete, Done, return
+  List.replicate 16 (1,0) ++                      -- 1: own flight, re-check finds 9
+  [(2,2)] ++ List.replicate 4 (2,0)               -- 2: direct hit
+
+example : (RM.run (RM.init .cacheTake) takeDemo).map
+      (fun s => s.rets.map fun r => (r.tid, r.key, r.val, r.direct))
+    = some [(2, 2, 9, true), (1, 2, 9, false), (0, 2, 9, false)] := by decide
+example : (RM.run (RM.init .cacheTake) takeDemo).map (fun s => (s.ncreate 2, s.res 2)) = some (1, some 9) := by decide
+
+/-- without the re-check inside the barrier (what seeded C07-1 and C07-2 did to GetResource) goroutine 1 would fetch again:
+the model's row `g3` is what prevents it — in `takeDemo` after 40 steps goroutine 1 is at `g3` with `found`. -/
+example : (RM.run (RM.init .cacheTake) (takeDemo.take 40)).map (fun s => (s.pc 1, s.found 1, s.loc 1))
+    = some (RM.PC.g3, true, 9) := by decide
+
+/-- a panicking `fetch` under `Cfg.cacheTake` (what the code does): the leader's Take panics, the joiner returns
+`(nil, nil)` (no type assertion), nothing is stored; the key is free again. -/
+def takePanicDemo : List (Tid × Nat) :=
+  [(0,2)] ++ List.replicate 14 (0,0) ++ [(0,1)] ++   -- 0: pre-miss, flight, fetch starts, will panic (gp)
+  [(1,2)] ++ List.replicate 7 (1,0) ++            -- 1: pre-miss, joins the flight
+  List.replicate 6 (0,0) ++                       -- 0: fetch panics; delete, unlock, Done; panic leaves Take
+  [(1,0),(1,0)]                                   -- 1: wakes, returns the nil value
+example : (RM.run (RM.init .cacheTake) takePanicDemo).map
+      (fun s => s.rets.map fun r => (r.tid, r.key, r.val, r.direct))
+    = some [(1, 2, 0, false)] := by decide
+example : (RM.run (RM.init .cacheTake) takePanicDemo).map
+      (fun s => (s.ncreate 2, s.res 2, s.pc 0, s.pc 1, (s.calls 2).isNone))
+    = some (0, none, RM.PC.idle, RM.PC.idle, true) := by decide
 
 /-! `Inject` (outside `RM.Reach`; what the code does): registered *before* any call it is simply the instance
 everyone gets and `create` never runs; registered *after* a successful create it replaces the stored instance, so
 later callers hold a different instance than earlier ones — `Inject` is a test hook, not covered by the property. -/
-example : ((RM.inject RM.init 2 5).bind fun s => RM.run s ([(0,2)] ++ List.replicate 16 (0,0))).map
+example : ((RM.inject (RM.init .getResource) 2 5).bind fun s => RM.run s ([(0,2)] ++ List.replicate 16 (0,0))).map
       (fun s => (s.rets.map fun r => (r.tid, r.key, r.val), s.ncreate 2))
     = some ([(0, 2, 5)], 0) := by decide
 
-example : (((RM.run RM.init rmDemo).bind fun s => RM.inject s 2 5).bind fun s =>
+example : (((RM.run (RM.init .getResource) rmDemo).bind fun s => RM.inject s 2 5).bind fun s =>
         RM.run s ([(3,2)] ++ List.replicate 16 (3,0))).map (fun s => s.rets.map fun r => (r.tid, r.key, r.val))
     = some [(3, 2, 5), (2, 2, 9), (0, 2, 9), (1, 2, 0), (0, 2, 0)] := by decide
+
+/-! ## Cleanup on every exit (return, error, panic)
+`g.calls` / `lg.m` hold an entry only while the goroutine that registered it is still between "registered" and
+"deleted" of the SAME call: whichever way the user function ends (value, error — the same rows — or panic, rows
+`mp`/`fp`/`gp` → deferred block → `px`), the entry is gone before the call ends, so a later call never finds a
+finished flight (seeded C07-3) and never waits on a wait group nobody will release (seeded C07-4). -/
+
+/-- **SingleFlight cleanup**: every entry of `g.calls` belongs to a leader that is right now inside the flight of
+that very call object, for that key, and whose call has not ended. -/
+theorem sf_cleanup {s : SF.St} (h : SF.Reach s) (k : Key) (c : CallId) (hc : s.calls k = some c) :
+    (s.pc (s.leader c)).inFlight = true ∧ s.reg (s.leader c) = c ∧ s.key (s.leader c) = k ∧ s.lret c = none := by
+  have hi := SF.inv_reach h
+  obtain ⟨_, a2, a3, a4⟩ := hi.calls k c hc
+  have ho := hi.owns (s.leader c) (by revert a3; cases s.pc (s.leader c) <;> simp [SF.PC.inFlight, SF.PC.owns])
+  rw [a4] at ho
+  exact ⟨a3, a4, by rw [← ho.2.2.1]; exact a2, ho.2.2.2.2⟩
+
+/-- a goroutine outside a flight (idle: its last call ended by return, error or panic; or on the joiner path; or past
+`delete`) has no entry in the map: **after any execution ends the key is absent** unless a NEW call registered it. -/
+theorem sf_cleanup_after_call {s : SF.St} (h : SF.Reach s) (t : Tid) (ht : (s.pc t).inFlight = false)
+    (k : Key) (c : CallId) (hc : s.calls k = some c) : s.leader c ≠ t := by
+  intro e
+  have := (sf_cleanup h k c hc).1
+  rw [e, ht] at this
+  cases this
+
+/-- when no call is in progress the map is empty. -/
+theorem sf_quiescent_clean {s : SF.St} (h : SF.Reach s) (hq : ∀ t, s.pc t = .idle) (k : Key) : s.calls k = none := by
+  cases hc : s.calls k with
+  | none => rfl
+  | some c =>
+    have := (sf_cleanup h k c hc).1
+    rw [hq] at this
+    simp [SF.PC.inFlight] at this
+
+/-- the wait group of a call object is non-zero only while its leader is between `Add(1)` and `Done()` of that call:
+nobody can be left waiting on a finished flight, however the function ended. -/
+theorem sf_wg_released {s : SF.St} (h : SF.Reach s) (t : Tid) (hp : s.pc t = .r0 ∨ s.pc t = .px ∨ s.pc t = .n1) :
+    s.wg (s.reg t) = 0 := by
+  have hi := SF.inv_reach h
+  rcases hp with hp | hp | hp
+  · exact hi.wg0 t (Or.inr (by simp [hp, SF.PC.after]))
+  · exact hi.wg0 t (Or.inr (by simp [hp, SF.PC.after]))
+  · exact hi.wg0 t (Or.inl hp)
+
+/-- in `sfPanicDemo`, once goroutine 0's panic has left `Do` (18 steps) nothing is registered for key 7 although
+goroutine 1 still waits to be woken; `sf_cleanup`'s hypothesis is inhabited after 12 steps (entry of call 0). -/
+example : (SF.run SF.init (sfPanicDemo.take 18)).map (fun s => (s.pc 0, (s.calls 7).isNone, s.wg 0))
+    = some (SF.PC.idle, true, 0) := by decide
+example : (SF.run SF.init (sfPanicDemo.take 12)).map (fun s => (s.calls 7, s.leader 0, s.pc 0))
+    = some (some 0, 0, SF.PC.mp) := by decide
+
+/-- **LockedCalls cleanup**: every entry of `lg.m` is the wait group of a goroutine that is right now between
+registering and deleting it, for that key. -/
+theorem lc_cleanup {s : LC.St} (h : LC.Reach s) (k : Key) (w : Nat) (hm : s.m k = some w) :
+    (s.pc (s.owner w)).inFlight = true ∧ s.reg (s.owner w) = w ∧ s.key (s.owner w) = k := by
+  have := (LC.inv_reach h).m k w hm
+  exact ⟨this.2.1, this.2.2.1, this.2.2.2⟩
+
+/-- a goroutine whose call has ended (return, error or panic: `e2`…`px`, `idle`) or has not registered yet has no entry
+in `lg.m`. -/
+theorem lc_cleanup_after_call {s : LC.St} (h : LC.Reach s) (t : Tid) (ht : (s.pc t).inFlight = false)
+    (k : Key) (w : Nat) (hm : s.m k = some w) : s.owner w ≠ t := by
+  intro e
+  have := (lc_cleanup h k w hm).1
+  rw [e, ht] at this
+  cases this
+
+/-- … and every wait group with a non-zero counter belongs to a goroutine that has not reached the end of `Done()` of
+that very wait group: after the call ended — also by an error or a panic — nobody can block on it (C07-4's hang). -/
+theorem lc_wg_released {s : LC.St} (h : LC.Reach s) (w : Nat) (hw : w < s.next) (hz : s.wg w ≠ 0) :
+    (s.pc (s.owner w)).wgOne = true ∧ s.reg (s.owner w) = w :=
+  (LC.inv_reach h).wgfree w hw hz
+
+theorem lc_quiescent_clean {s : LC.St} (h : LC.Reach s) (hq : ∀ t, s.pc t = .idle) (k : Key) : s.m k = none := by
+  cases hm : s.m k with
+  | none => rfl
+  | some w =>
+    have := (lc_cleanup h k w hm).1
+    rw [hq] at this
+    simp [LC.PC.inFlight] at this
+
+/-- in `lcPanicDemo`, after goroutine 0's panic left `Do` (18 steps): key 3 is free, wait group 0 released, goroutine 1
+(still at `wg.Wait()`) can go on. -/
+example : (LC.run LC.init (lcPanicDemo.take 18)).map (fun s => (s.pc 0, (s.m 3).isNone, s.wg 0, s.pc 1, (LC.step s 1 0).isSome))
+    = some (LC.PC.idle, true, 0, LC.PC.b3, true) := by decide
+example : (LC.run LC.init (lcPanicDemo.take 12)).map (fun s => (s.m 3, s.owner 0, s.pc 0))
+    = some (some 0, 0, LC.PC.fp) := by decide
 
 end GoZero.C07
